@@ -30,6 +30,7 @@ DEFAULT_PROFILE = dict(
     vfuncs=(0, 5), p_index=0.35, impl_fns=(0, 3), args=(0, 4), p_forward=0.5,
     p_zero_array=0.05, p_ptr=0.25, p_array=0.2, p_user_field=0.35, p_cc=0.25, p_ret=0.5,
     max_depth=3, p_int_forms=0.5,
+    packed_clone=False,      # `#[packed, cloneable]` (rustc accepts it only when every field is Copy)
 )
 
 
@@ -611,7 +612,7 @@ class Gen:
             if k < 0.4 and all_copy:
                 attrs.append("copyable")
                 copyable = cloneable = True
-            elif k < 0.7 and all_clone and not packed:
+            elif k < 0.7 and all_clone and (not packed or (self.p.get("packed_clone") and all_copy)):
                 attrs.append("cloneable")
                 cloneable = True
         if self.chance("p_markers") and all_default:
